@@ -21,7 +21,8 @@ import unittest
 
 from pv import names, project, reqs, tlc, unrender
 
-GABBITS = '/repo/placement/tests/functional/gabbits'
+import pv as _pv
+GABBITS = _pv.REPO + '/placement/tests/functional/gabbits'
 ENV = {'iproj': names.DEFAULT_IPROJ, 'iuser': names.DEFAULT_IUSER}
 
 
